@@ -45,3 +45,6 @@ K("c14_unsub_unknown_conn_kf", "psub", ["C14", "C05"], tier="quick", timeout=120
 M("c14_publish_no_dedup", ["C14"], "reach_allow", tier="quick",
   desc="MIR of PubSubManager::publish: every matching (connection, channel|pattern) subscription is pushed to the receiver list unconditionally - no HashSet::insert / contains on connection ids guards the push (a client subscribed to a channel AND a matching pattern gets one delivery per subscription, and PUBLISH counts both)",
   fn=r"PubSubManager::publish$|pubsub::.*::publish$", deny=[r"HashSet::(insert|contains)$"], must_reach=[r"Vec::push$"])
+K("c14_unsub_channel_keeps_pattern", "psub", ["C14"], tier="quick", timeout=1500, fs_array=4096,
+  desc="a client holding channel x AND pattern p unsubscribes its last channel: acknowledgement count 1, the pattern subscription and the connection record survive in all three maps",
+  encodes=["PubSubManager::unsubscribe"], bounds="one instance: 2 subscriptions of one connection; ids concrete; CAP=4; unwind 6", stubs=FMT)
